@@ -121,6 +121,8 @@ def render(a, mode):
         return '(?:%s)?' % render(a[1], mode)
     if t == 'look':
         return '(?=%s)' % render(a[1], mode)
+    if t == 'raw':
+        return a[1]          # regex source outside the modelled grammar (groups, back-references, look-behind): real vs naive only
     raise ValueError(t)
 
 
